@@ -32,6 +32,10 @@ type TSpec struct {
 	Outs []string
 	Bin  bool
 	EPs  [][2]string
+	// Extra: the outputs that are not plain declared outs: named outputs (outs = {"grp": [...]}), or — FG — all the
+	// outputs of a filegroup, which derives them from its sources.
+	Extra []string
+	FG    bool
 }
 
 type Input struct {
@@ -90,7 +94,14 @@ func encSpec(t TSpec) string {
 	if t.Bin {
 		b = "1"
 	}
-	return encLabel(t.L) + ";" + encList(t.Outs) + ";" + b + ";" + eps
+	ex := "_"
+	if len(t.Extra) > 0 {
+		ex = "n:" + encList(t.Extra)
+		if t.FG {
+			ex = "f:" + encList(t.Extra)
+		}
+	}
+	return encLabel(t.L) + ";" + encList(t.Outs) + ";" + b + ";" + eps + ";" + ex
 }
 
 func encInputs(xs []Input) string {
@@ -178,8 +189,27 @@ func decList(s string) []string {
 
 func decSpec(s string) TSpec {
 	f := strings.Split(s, ";")
-	must(len(f) == 4)
+	must(len(f) == 5)
 	t := TSpec{L: decLabel(f[0]), Outs: decList(f[1])}
+	if f[4] != "_" {
+		must(strings.HasPrefix(f[4], "n:") || strings.HasPrefix(f[4], "f:"))
+		t.FG = strings.HasPrefix(f[4], "f:")
+		t.Extra = decList(f[4][2:])
+		must(len(t.Extra) > 0)
+		in := map[string]bool{}
+		for _, o := range t.Outs {
+			in[o] = true
+		}
+		for _, e := range t.Extra {
+			must(in[e])
+		}
+		must(!t.FG || len(t.Extra) == len(t.Outs))
+		if t.FG {
+			for i := range t.Outs {
+				must(t.Extra[i] == t.Outs[i])
+			}
+		}
+	}
 	must(f[2] == "0" || f[2] == "1")
 	t.Bin = f[2] == "1"
 	if f[3] != "_" {
@@ -250,6 +280,9 @@ func decTarget(f []string) *Case {
 
 // wellFormed: what the harness can build as a real graph (the Lean driver applies the same test).
 func (c *Case) wellFormed() bool {
+	if c.T.FG {
+		return false // the rule under test is not itself a filegroup (its sources would become its outputs)
+	}
 	seen := map[Label]bool{c.T.L: true}
 	for _, d := range c.Deps {
 		if seen[d.Declared] || len(d.Deps) != 1 || d.Deps[0].L != d.Declared {
@@ -337,8 +370,21 @@ func bl(l Label) core.BuildLabel {
 
 func mkTarget(s TSpec) *core.BuildTarget {
 	t := core.NewBuildTarget(bl(s.L))
+	named := map[string]bool{}
+	for _, e := range s.Extra {
+		named[e] = true
+	}
 	for _, o := range s.Outs {
-		t.AddOutput(o)
+		switch {
+		case s.FG:
+			// a filegroup re-outputs its sources: its outputs are derived, none is declared
+			t.IsFilegroup = true
+			t.AddSource(core.FileLabel{File: o, Package: s.L.Pkg})
+		case named[o]:
+			t.AddNamedOutput("grp", o)
+		default:
+			t.AddOutput(o)
+		}
 	}
 	t.IsBinary = s.Bin
 	for _, e := range s.EPs {
@@ -605,6 +651,8 @@ type expect struct {
 	viaEP   bool // an entry point was selected
 	tool    bool // the named target is a tool of the rule
 	rootPkg bool // the named target lives in the root package
+	outs    []string
+	outKind string // how the dependency's outputs are declared
 }
 
 func cleanJoin(a ...string) string { return filepath.Join(a...) }
@@ -671,7 +719,15 @@ func specOf(c *Case, k *seqKind, arg string) expect {
 			return expect{reject: "not-binary"}
 		}
 		if !k.multiple && len(outs) != 1 {
-			return expect{reject: fmt.Sprintf("needs-one-output-has-%d", len(outs))}
+			kind := "plain outs"
+			if dep.FG {
+				kind = "derived by a filegroup from its sources"
+			} else if len(dep.Extra) == len(dep.Outs) {
+				kind = "all named outputs"
+			} else if len(dep.Extra) > 0 {
+				kind = "plain and named outputs"
+			}
+			return expect{reject: fmt.Sprintf("needs-one-output-has-%d", len(outs)), outs: outs, outKind: kind}
 		}
 		tool := roles&roleTool != 0
 		if c.Test && tool {
@@ -851,8 +907,16 @@ func judge(r *lib.Run, j *oracleJob, br *bashRes) {
 				cls = "plain-name-not-checked-against-sources"
 			case j.ex.reject == "needs-one-output-has-0":
 				cls = "single-output-sequence-accepts-zero-outputs"
+			case strings.HasPrefix(j.ex.reject, "needs-one-output-has-"):
+				// a singular sequence must expand to exactly one path or be rejected
+				cls = "singular-location-expands-to-several-paths"
 			}
-			r.OracleFail(cls, j.op, fmt.Sprintf("$(%s %s) must be rejected (%s) but expands to %q", j.k.kw, j.arg, j.ex.reject, j.out))
+			detail := fmt.Sprintf("$(%s %s) must be rejected (%s) but expands to %q", j.k.kw, j.arg, j.ex.reject, j.out)
+			if cls == "singular-location-expands-to-several-paths" {
+				detail = fmt.Sprintf("command `cp $(%s %s) $OUT` of %s: the dependency has the outputs %q (%s), the singular sequence is not rejected and expands to %q — several shell words",
+					j.k.kw, j.arg, bl(j.c.T.L), j.ex.outs, j.ex.outKind, j.out)
+			}
+			r.OracleFail(cls, j.op, detail)
 		}
 		return
 	}
@@ -1101,7 +1165,7 @@ var e2eSeq int
 func runE2E(r *lib.Run, op string, f []string) {
 	must(len(f) == 3)
 	kind, name := f[1], unhx(f[2])
-	must(kind == "file" || kind == "multi" || kind == "nondep" || kind == "typo")
+	must(kind == "file" || kind == "multi" || kind == "nondep" || kind == "typo" || kind == "named" || kind == "fgroup")
 	must(name != "" && !strings.ContainsAny(name, "\"\\\n/") && !strings.HasPrefix(name, "."))
 	r.Emit(op, "-", false)
 	plz := os.Getenv("VERIF_PLZ")
@@ -1128,6 +1192,13 @@ func runE2E(r *lib.Run, op string, f []string) {
 		build = fmt.Sprintf("genrule(name = \"t\", srcs = [\"ab\"], outs = [\"t.out\"], cmd = \"echo $(location %s) > $OUT\")\n", name)
 	case "multi":
 		build = "genrule(name = \"two\", outs = [\"o1\", \"o2\"], cmd = \"touch $OUTS\")\n" +
+			"genrule(name = \"t\", srcs = [\":two\"], outs = [\"t.out\"], cmd = \"echo $(location :two) > $OUT\")\n"
+	case "named":
+		build = "genrule(name = \"two\", outs = {\"srcs\": [\"a.c\"], \"hdrs\": [\"a.h\"]}, cmd = \"touch $OUTS\")\n" +
+			"genrule(name = \"t\", srcs = [\":two\"], outs = [\"t.out\"], cmd = \"echo $(location :two) > $OUT\")\n"
+	case "fgroup":
+		os.WriteFile(filepath.Join(root, "pkg", "c.txt"), []byte("c\n"), 0o644)
+		build = "filegroup(name = \"two\", srcs = [\"ab\", \"c.txt\"])\n" +
 			"genrule(name = \"t\", srcs = [\":two\"], outs = [\"t.out\"], cmd = \"echo $(location :two) > $OUT\")\n"
 	case "nondep":
 		build = "genrule(name = \"other\", outs = [\"o1\"], cmd = \"touch $OUT\")\n" +
@@ -1186,9 +1257,22 @@ func runE2E(r *lib.Run, op string, f []string) {
 		} else {
 			r.Count("e2e-pass")
 		}
+	case "named", "fgroup":
+		if err == nil {
+			got, _ := os.ReadFile(filepath.Join(root, "plz-out/gen/pkg/t.out"))
+			what := "named outputs {srcs: [a.c], hdrs: [a.h]}"
+			if kind == "fgroup" {
+				what = "a filegroup over ab and c.txt"
+			}
+			r.OracleFail("singular-location-expands-to-several-paths", op, fmt.Sprintf("plz build accepts `echo $(location :two) > $OUT` where :two has %s; the command saw %q", what, strings.TrimSpace(string(got))))
+		} else if strings.Contains(text, "multiple outputs") {
+			r.Count("e2e-pass")
+		} else {
+			r.Count("e2e-failed-for-another-reason")
+		}
 	case "multi":
 		if err == nil {
-			r.OracleFail("accepted-needs-one-output-has-2", op, "plz build accepts $(location :two) on a rule with two outputs")
+			r.OracleFail("singular-location-expands-to-several-paths", op, "plz build accepts $(location :two) on a rule with two plain outputs")
 		} else if strings.Contains(text, "multiple outputs") {
 			r.Count("e2e-pass")
 		} else {
@@ -1351,7 +1435,21 @@ func genSpec(g *lib.Rng, pkg, name string, wild bool) TSpec {
 	t := TSpec{L: Label{"", pkg, name}, Bin: g.Chance(40)}
 	n := lib.Pick(g, []int{0, 1, 1, 1, 2, 2, 3})
 	t.Outs = genOuts(g, n, wild)
-	if g.Chance(25) && len(t.Outs) > 0 {
+	switch {
+	case len(t.Outs) > 0 && g.Chance(22): // named outputs: some or all of them
+		for _, o := range t.Outs {
+			if g.Chance(70) {
+				t.Extra = append(t.Extra, o)
+			}
+		}
+		if len(t.Extra) == 0 {
+			t.Extra = append(t.Extra, t.Outs[0])
+		}
+	case len(t.Outs) > 0 && g.Chance(18): // a filegroup over these files
+		t.FG = true
+		t.Extra = append([]string{}, t.Outs...)
+	}
+	if g.Chance(25) && len(t.Outs) > 0 && !t.FG {
 		ne := 1 + g.Intn(2)
 		for i := 0; i < ne; i++ {
 			t.EPs = append(t.EPs, [2]string{lib.Pick(g, []string{"main", "ep", "e p"}) + strconv.Itoa(i), lib.Pick(g, t.Outs)})
@@ -1375,6 +1473,7 @@ func genCase(g *lib.Rng, wild bool) *Case {
 	c := &Case{Root: ""}
 	pkg := lib.Pick(g, pkgAtoms)
 	c.T = genSpec(g, pkg, "t", wild)
+	c.T.Extra, c.T.FG = nil, false // named / filegroup-derived outputs are generated for dependencies only
 	if g.Chance(20) {
 		c.T.L.Name = lib.Pick(g, targetNames)
 	}
@@ -1560,6 +1659,30 @@ func main() {
 		return
 	}
 	g := r.Rng
+	// 0. fixed shapes: singular sequences on dependencies whose several outputs are NAMED outputs or derived by a
+	// filegroup (nothing, or one entry, in the plain outs list)
+	for _, shape := range []TSpec{
+		{Outs: []string{"a.c", "a.h"}, Extra: []string{"a.c", "a.h"}},
+		{Outs: []string{"a.c", "a.h"}, Extra: []string{"a.c", "a.h"}, FG: true},
+		{Outs: []string{"a.c", "a.h", "main.c"}, Extra: []string{"a.c", "a.h"}},
+		{Outs: []string{"a.c", "a.h"}, Extra: []string{"a.h"}},
+		{Outs: []string{"lib.a"}, Extra: []string{"lib.a"}},
+		{Outs: []string{"one.txt"}, Extra: []string{"one.txt"}, FG: true},
+	} {
+		for _, roles := range []int{roleSrc, roleDep} {
+			for _, kw := range []string{"location", "out_location", "locations"} {
+				dep := shape
+				dep.L = Label{"", "path/to", "dep"}
+				c := &Case{T: TSpec{L: Label{"", "path/to", "t"}, Outs: []string{"out"}}, Deps: []DepDecl{{Declared: dep.L, Roles: roles, Deps: []TSpec{dep}}}}
+				if roles&roleSrc != 0 {
+					c.Srcs = []Input{{Str: bl(dep.L).String(), Lab: &dep.L}}
+				}
+				c.Cmd = "$(" + kw + " //path/to:dep)"
+				r.Count("fixed-shape-named-or-filegroup-outputs")
+				runOp(r, p, c.rsOp(), true)
+			}
+		}
+	}
 	// 1. replacement cases with the file-system oracle
 	nfs := r.N(1200, 12000)
 	for i := 0; i < nfs; i++ {
@@ -1632,6 +1755,8 @@ func main() {
 	}
 	runOp(r, p, "e2e typo "+hx("nosuch.txt"), false)
 	runOp(r, p, "e2e multi "+hx("x"), false)
+	runOp(r, p, "e2e named "+hx("x"), false)
+	runOp(r, p, "e2e fgroup "+hx("x"), false)
 	runOp(r, p, "e2e nondep "+hx("x"), false)
 	if server != nil {
 		server.cmd.Process.Kill()
